@@ -101,7 +101,8 @@ pub struct Case {
     pub pol: u8,
     /// 0: foreign address; 1: + the wallet change address; 2: + a foreign xpub and the node's own xpub
     pub allow: u8,
-    /// 0 check_onchain_tx, 1 handle_proposed_onchain with a recording approver that declines
+    /// 0 check_onchain_tx, 1 handle_proposed_onchain with a recording approver that declines,
+    /// 2 the same with an approver that approves every unknown destination it is asked about
     pub entry: u8,
     pub inputs: Vec<(u64, bool)>,
     pub outputs: Vec<Out>,
@@ -129,7 +130,7 @@ fn xpub_script(i: u32) -> ScriptBuf {
     Address::p2wpkh(&CompressedPublicKey(pk), Network::Regtest).script_pubkey()
 }
 
-struct Recorder(std::sync::Mutex<Vec<Vec<usize>>>);
+struct Recorder(std::sync::Mutex<Vec<Vec<usize>>>, bool);
 impl lightning_signer::SendSync for Recorder {}
 impl Approve for Recorder {
     fn approve_invoice(&self, _i: &lightning_signer::invoice::Invoice) -> bool {
@@ -140,7 +141,7 @@ impl Approve for Recorder {
     }
     fn approve_onchain(&self, _tx: &Transaction, _p: &[TxOut], idx: &[usize]) -> bool {
         self.0.lock().unwrap().push(idx.to_vec());
-        false
+        self.1
     }
 }
 
@@ -443,6 +444,23 @@ fn run_case(case: &Case) -> Res {
         }
         Ok(())
     };
+    // what must still hold when an operator approved the unknown destinations
+    let approved_ref = || -> Result<(), String> {
+        if version != 2 {
+            return Err("non-standard-version".into());
+        }
+        for x in &refs {
+            match x {
+                RefOut::BadFunding(wy) => return Err(wy.clone()),
+                RefOut::Mismatch => return Err("output-with-path-matches-nothing".into()),
+                _ => {}
+            }
+        }
+        if funds_channel && segwit.iter().any(|s| !*s) {
+            return Err("funding-with-non-segwit-input".into());
+        }
+        Ok(())
+    };
     // ---- requests ----
     let rounds = if repeat > 0 { 2 } else { 1 };
     let mut prior: u128 = 0;
@@ -512,7 +530,7 @@ fn run_case(case: &Case) -> Res {
                 }
             }
         } else {
-            let rec = Recorder(std::sync::Mutex::new(vec![]));
+            let rec = Recorder(std::sync::Mutex::new(vec![]), case.entry == 2);
             let o = {
                 let rec = &rec;
                 call(move || rec.handle_proposed_onchain(&n2, &tx2, &sw, &po, &ucks, &op).map_err(|e| status_kind(&e)))
@@ -522,9 +540,28 @@ fn run_case(case: &Case) -> Res {
                 Outcome::Ok(true) => {
                     r.accepted = true;
                     r.class = "accepted".into();
-                    if !consulted.is_empty() {
+                    if !consulted.is_empty() && case.entry == 1 {
                         r.vio = Some(("C08:approver:accepted-after-decline".into(), format!("{:?}: approver declined {:?} but the request passed", case, consulted)));
                         return r;
+                    }
+                    if !consulted.is_empty() {
+                        // the operator approved the unknown destinations: the fee cannot be bounded
+                        // any more, but every other rule still has to hold, and the approver must
+                        // have been shown exactly the unknown outputs
+                        r.class = "accepted-after-approval".into();
+                        let mut got = consulted.first().cloned().unwrap_or_default();
+                        got.sort();
+                        let other = approved_ref();
+                        if consulted.len() != 1 || got != unknown_idx {
+                            r.vio = Some(("C08:approver:consulted-with-wrong-outputs".into(), format!("{:?}: approve_onchain consulted with {:?}, unknown outputs are {:?}", case, consulted, unknown_idx)));
+                            return r;
+                        }
+                        if let Err(wy) = other {
+                            r.ref_why = wy.clone();
+                            r.vio = Some((format!("C08:handle_proposed_onchain:passed-after-approval-although:{}", wy), format!("{:?}: approving the unknown destinations let a transaction pass although {}", case, wy)));
+                            return r;
+                        }
+                        continue;
                     }
                     if let Err(wy) = &expect {
                         r.ref_why = wy.clone();
@@ -568,11 +605,13 @@ fn bases() -> Vec<Case> {
     let mut v = vec![];
     for pol in 0..2u8 {
         for allow in 0..3u8 {
-            for entry in 0..2u8 {
+            for entry in 0..3u8 {
                 // a wallet spend with change and an allowlisted destination
                 v.push(Case { pol, allow, entry, inputs: vec![(1_000_600, true)], outputs: vec![Out { k: OutK::Wallet(0), value: 600_000 }, Out { k: OutK::Allowlisted, value: 400_000 }], devs: vec![] });
                 // single-channel funding with change
                 v.push(Case { pol, allow, entry, inputs: vec![(4_000_700, true)], outputs: vec![Out { k: OutK::Fund(1, FundK::Good), value: 3_000_000 }, Out { k: OutK::Wallet(0), value: 1_000_000 }], devs: vec![] });
+                // funding with change and a payment to an unknown destination (needs approval)
+                v.push(Case { pol, allow, entry, inputs: vec![(4_010_700, true)], outputs: vec![Out { k: OutK::Fund(1, FundK::Good), value: 3_000_000 }, Out { k: OutK::Wallet(0), value: 1_000_000 }, Out { k: OutK::Foreign, value: 10_000 }], devs: vec![] });
                 // two channels funded at once from two inputs
                 v.push(Case { pol, allow, entry, inputs: vec![(3_000_000, true), (2_000_900, true)], outputs: vec![Out { k: OutK::Fund(1, FundK::Good), value: 3_000_000 }, Out { k: OutK::Fund(2, FundK::Good), value: 1_500_000 }, Out { k: OutK::Wallet(0), value: 500_000 }], devs: vec![] });
             }
